@@ -48,6 +48,8 @@ type World struct {
 	mbnBusy          map[*ssa.Function]bool
 	pinned           map[*ssa.Function]ssa.CallInstruction
 	idxSums          map[*ssa.Function]*idxSummary
+	recBusy          map[ssa.Value]bool
+	recEsc           map[*ssa.Alloc]bool
 	phiSel           map[*ssa.Phi]int // join under consideration: the incoming edge each of its phis takes its value from
 	cbOK             map[*ssa.Function]bool
 	rootsInl         map[*ssa.Function]int
